@@ -56,7 +56,8 @@ impl TirGen {
             4 => rng.usize(70),
             5 => {
                 if self.extreme {
-                    rng.usize(3000)
+                    // incl. both sides of 4096 (ciborium's scratch buffer) and of 64 KiB
+                    *rng.pick(&[100usize, 3000, 4095, 4096, 4097, 5000, 65_535, 65_536, 70_000])
                 } else {
                     57
                 }
@@ -68,7 +69,18 @@ impl TirGen {
 
     pub fn string(&self, rng: &mut Rng) -> String {
         const POOL: &[&str] = &["", "a", "hello", "ünï©ødé ✓", "0x00", "txid#0", "addr_test1vq", "\u{0}", "\"quoted\"", "line\nbreak"];
-        if rng.chance(1, 6) {
+        if rng.chance(1, 12) {
+            // long text whose multi-byte characters fall on every byte alignment (what a fixed-width cut of a
+            // message or of a Debug rendering lands in)
+            let prefix = rng.usize(4);
+            let unit = *rng.pick(&["日", "é", "€", "𝄞", "本語"]);
+            let n = 60 + rng.usize(300);
+            let mut t: String = "x".repeat(prefix);
+            for _ in 0..n {
+                t.push_str(unit);
+            }
+            t
+        } else if rng.chance(1, 6) {
             let n = rng.usize(100);
             (0..n).map(|_| (b'a' + rng.below(26) as u8) as char).collect()
         } else {
